@@ -169,3 +169,16 @@ Definition opt_keys_eqb (a b : option (list key)) : bool :=
   | Some x, Some y => keys_eqb x y
   | _, _ => false
   end.
+
+(* ---------- option monad helpers ---------- *)
+Definition omap {A B} (f : A -> B) (o : option A) : option B :=
+  match o with Some a => Some (f a) | None => None end.
+Definition obind {A B} (o : option A) (f : A -> option B) : option B :=
+  match o with Some a => f a | None => None end.
+
+Fixpoint omapM {A B} (f : A -> option B) (l : list A) : option (list B) :=
+  match l with
+  | [] => Some []
+  | x :: l' => obind (f x) (fun y => omap (cons y) (omapM f l'))
+  end.
+
